@@ -63,11 +63,39 @@ fn to_ptr(toks: &[String]) -> String {
     toks.iter().map(|t| format!("/{}", esc(t))).collect()
 }
 
+/// How the registry's READ path spells array indices beyond RFC 6901's canonical form, probed once per process
+/// (`probe_index_modes`). RFC 6901 forbids leading zeros and signs; a library that accepts them everywhere, or nowhere,
+/// satisfies the statement equally — what it must not do is accept a spelling on one path (write, merge, mount, helper)
+/// and refuse it on another, because then a successful write is not returned by the next read of that pointer.
+static LENIENT_ZERO: std::sync::atomic::AtomicBool = std::sync::atomic::AtomicBool::new(false);
+static LENIENT_PLUS: std::sync::atomic::AtomicBool = std::sync::atomic::AtomicBool::new(false);
+
+fn probe_index_modes() -> (bool, bool) {
+    let reg = Registry::new();
+    reg.set_root(json!({"arr": [10, 20, 30]}));
+    let z = reg.read_value("/arr/01").ok() == Some(json!(20));
+    let p = reg.read_value("/arr/+1").ok() == Some(json!(20));
+    LENIENT_ZERO.store(z, std::sync::atomic::Ordering::SeqCst);
+    LENIENT_PLUS.store(p, std::sync::atomic::Ordering::SeqCst);
+    (z, p)
+}
+
 fn index(tok: &str, len: usize) -> Option<usize> {
-    if tok.is_empty() || !tok.chars().all(|c| c.is_ascii_digit()) || (tok.len() > 1 && tok.starts_with('0')) {
+    use std::sync::atomic::Ordering::SeqCst;
+    let (plus, digits) = match tok.strip_prefix('+') {
+        Some(d) => (true, d),
+        None => (false, tok),
+    };
+    if plus && !LENIENT_PLUS.load(SeqCst) {
         return None;
     }
-    tok.parse::<usize>().ok().filter(|i| *i < len)
+    if digits.is_empty() || !digits.chars().all(|c| c.is_ascii_digit()) {
+        return None;
+    }
+    if digits.len() > 1 && digits.starts_with('0') && !LENIENT_ZERO.load(SeqCst) {
+        return None;
+    }
+    digits.parse::<usize>().ok().filter(|i| *i < len)
 }
 
 fn resolve<'a>(doc: &'a Value, toks: &[String]) -> Option<&'a Value> {
@@ -297,7 +325,7 @@ fn vj(s: &str) -> Value {
     serde_json::from_str(s).unwrap()
 }
 
-const TOKENS: [&str; 17] = ["a", "b", "c", "", "0", "1", "2", "a/b", "m~n", "~", "/", "x y", "é", "arr", "~1", "~0", "~01"];
+const TOKENS: [&str; 24] = ["a", "b", "c", "", "0", "1", "2", "a/b", "m~n", "~", "/", "x y", "é", "arr", "~1", "~0", "~01", "01", "+1", "00", "-0", "+0", "002", "1e0"];
 
 fn gen_tokens(r: &mut Rng, max_depth: usize) -> Vec<String> {
     let d = if r.chance(1, 12) { 0 } else { 1 + r.usize_below(max_depth) };
@@ -487,19 +515,29 @@ fn check_helpers(rep: &mut Report, r: &mut Rng) {
 // ------------------------------------------------------------------ mount replay
 
 fn check_mount(rep: &mut Report, r: &mut Rng, case: u64) {
-    let prefix = *r.pick(&["", "/reg", "/api/v1", "/a~1b", "/reg/sub"]);
-    let direct = Sys::new();
-    let mounted = Sys::new();
-    let router = Router::new().with_registry(prefix, mounted.reg.clone());
+    let main_prefix = *r.pick(&["", "/reg", "/api/v1", "/a~1b", "/reg/sub"]);
+    // a sibling mount whose prefix extends the main one as a STRING but not at a '/' boundary ("/reg" and "/reg2"), registered
+    // before or after it: mounting under a prefix only strips that prefix, so each mount must see exactly its own requests
+    let sib_prefix = format!("{main_prefix}{}", r.pick(&["2", "x", "~0", "-b"]));
+    let with_sibling = !main_prefix.is_empty() && r.coin();
+    let (direct_main, mounted_main, direct_sib, mounted_sib) = (Sys::new(), Sys::new(), Sys::new(), Sys::new());
+    let router = if !with_sibling {
+        Router::new().with_registry(main_prefix, mounted_main.reg.clone())
+    } else if r.coin() {
+        Router::new().with_registry(main_prefix, mounted_main.reg.clone()).with_registry(&sib_prefix, mounted_sib.reg.clone())
+    } else {
+        Router::new().with_registry(&sib_prefix, mounted_sib.reg.clone()).with_registry(main_prefix, mounted_main.reg.clone())
+    };
     let init = json!({"a": {"b": 1}, "arr": [1, 2, 3], "a/b": {"m~n": 5}});
-    direct.reg.set_root(init.clone());
-    mounted.reg.set_root(init);
-    for s in [&direct, &mounted] {
+    for s in [&direct_main, &mounted_main, &direct_sib, &mounted_sib] {
+        s.reg.set_root(init.clone());
         s.register_function("/fn", 1, 0).unwrap();
         s.register_function("/a~1b/call", 2, 0).unwrap();
     }
     let n = 1 + r.usize_below(12);
     for j in 0..n {
+        let to_sib = with_sibling && r.coin();
+        let (prefix, direct, mounted): (&str, &Sys, &Sys) = if to_sib { (&sib_prefix, &direct_sib, &mounted_sib) } else { (main_prefix, &direct_main, &mounted_main) };
         let ptr = match r.below(6) {
             0 => "/fn".to_string(),
             1 => "/a~1b/call".to_string(),
@@ -556,6 +594,13 @@ fn check_mount(rep: &mut Report, r: &mut Rng, case: u64) {
         }
         if direct.doc() != mounted.doc() || *direct.log.lock().unwrap() != *mounted.log.lock().unwrap() {
             rep.violation("C14:mount:state-differs", format!("after {path:?}: mounted registry state differs from the directly driven twin"), json!({"prefix": prefix, "pointer": ptr}));
+        }
+        if with_sibling {
+            rep.count("mount_requests_with_a_sibling_prefix_mounted", 1);
+            let (od, om) = if to_sib { (&direct_main, &mounted_main) } else { (&direct_sib, &mounted_sib) };
+            if od.doc() != om.doc() || *od.log.lock().unwrap() != *om.log.lock().unwrap() {
+                rep.violation("C14:mount:sibling-state-changed", format!("after {path:?} (mounts at {main_prefix:?} and {sib_prefix:?}): the OTHER mount's registry changed"), json!({"prefix": prefix, "pointer": ptr, "sibling": sib_prefix}));
+            }
         }
     }
 }
@@ -689,6 +734,8 @@ pub fn run(args: &Args) -> Report {
     );
     let miri = args.stage.starts_with("miri");
     quiet_panics(true);
+    let (lz, lp) = probe_index_modes();
+    rep.set("array_index_spelling_on_the_read_path", json!({"leading_zeros_accepted": lz, "plus_sign_accepted": lp, "note": "every other path (write, merge, mount, helpers) must agree with the read path"}));
     let mut rng = Rng::new(args.seed ^ 0xC14);
 
     // (a) small scope, exhaustive
